@@ -59,6 +59,13 @@ def math_sqrt(ex, args, kwargs, node, st):
 def np_sqrt(ex, args, kwargs, node, st):
     """np.sqrt: scalar, or elementwise on an ndarray (A3) -- a new array, the argument is untouched"""
     v = args[0]
+    if isinstance(v, Seq) and v.nd:
+        g = v.get
+        if v.items is not None and all(concrete(x) for x in v.items):
+            import math
+            its = [math.sqrt(x) for x in v.items]
+            return Seq(lambda k, its=its: ex.pick(its, k), len(its), 'val', items=its, nd=True)
+        return Seq(lambda k: vsqrt(vlit(g(k))), v.length, 'val', nd=True)
     if isinstance(v, Ref) and isinstance(st.heap[v.oid], ArrObj):
         o = st.heap[v.oid]
         oid = st.new_oid('N')
@@ -156,6 +163,22 @@ def np_array(ex, args, kwargs, node, st):
     """np.array(list): same content; dtype int for a non-empty list of ints, float64 for an
     empty list (NumPy's default dtype) -- the fact D18 hinges on."""
     src = args[0]
+    if isinstance(src, Seq):
+        # materialise a view: a new 1-D array with the same elements
+        oid = st.new_oid('N')
+        if src.items is not None:
+            st.heap[oid] = ArrObj(src.kind if src.kind in ('val', 'int') else 'any', items=list(src.items), length=len(src.items),
+                                  pykind='ndarray', dtype='float' if src.kind == 'val' else 'int')
+            return Ref(oid)
+        if src.kind != 'val':
+            raise Unsupported('np.array of a symbolic non-float view')
+        new = fresh('nparr', z3.ArraySort(IntS, Val))
+        k_ = z3.Const('na_k!%d' % ex.qcount(), IntS)
+        n_ = zint(src.length)
+        st.assume(z3.ForAll([k_], z3.Implies(z3.And(0 <= k_, k_ < n_), z3.Select(new, k_) == vlit(src.get(k_))),
+                            patterns=[z3.Select(new, k_)]))
+        st.heap[oid] = ArrObj('val', arr=new, length=src.length, pykind='ndarray', dtype='float')
+        return Ref(oid)
     if not isinstance(src, Ref):
         raise Unsupported('np.array of %r' % type(src))
     o = st.heap[src.oid]
